@@ -9,6 +9,8 @@ documented plain case must produce the post-state predicted by the abstract mode
 Exhaustive part: breadth-first enumeration of all histories to depth 2 (quick) / 3 (thorough) over the reduced universe;
 random part: seeded walks of 40 calls over the full universe."""
 from fractions import Fraction
+import resource
+import signal
 
 from vt.mon import wf
 from vt.ref import model as M
@@ -39,6 +41,12 @@ ASSUMPTIONS = [
   "value validity: reference table in vt/ref/model.py (type of the value, each font-family item, root-container units for "
   "Extent/Origin/Position); component ranges of colours, numeric ranges and the members of text-shadow lists are not judged",
   "hidden (non-public) state is out of scope: pruning of the exhaustive search and the unchanged check use the public fingerprint",
+  "a call that burns more than 0.5 s of CPU is interrupted by a watchdog and reported as call-does-not-return (no state is "
+  "reached, so the well-formedness clauses have nothing to judge); such a history is not extended",
+  "universes: reduced = 2 documents, regions RA(r1,D1,registered) RA2(r1,D1,unregistered) RB(r1,D2,registered), 18 content "
+  "elements covering all 12 kinds (a body>div>p tree with a region reference, span>span, a detached span>text, loose "
+  "br/text/p and ruby parts); full = reduced + region RC(r2,D1) and a second element of every remaining kind (25 content elements, 4 regions; "
+  "the fourth region exists so that put_region can replace a registered region by another object with the same id)",
 ]
 OPS = ["push_child", "push_children", "remove", "remove_child", "remove_children", "set_doc", "set_region", "put_region",
        "remove_region", "set_body", "set_style", "add_animation_step", "put_initial_value", "copy_to"]
@@ -58,6 +66,26 @@ SHARD_TIMEOUT = {"quick": 600, "thorough": 5400}
 
 WALK_LEN = 40
 N_SHARDS = 16
+CALL_CPU_BUDGET = 0.5          # seconds of CPU one model API call may burn before the watchdog interrupts it
+ADDRESS_SPACE_LIMIT = 6 << 30  # a runaway call must not take the machine down
+
+
+class CallTimeout(Exception):
+  """Raised by the watchdog inside a ttconv call that does not return."""
+
+
+def _on_alarm(_sig, _frame):
+  raise CallTimeout(f"no return after {CALL_CPU_BUDGET} s of CPU")
+
+
+def install_watchdog():
+  signal.signal(signal.SIGVTALRM, _on_alarm)
+  try:
+    soft, hard = resource.getrlimit(resource.RLIMIT_AS)
+    if soft == resource.RLIM_INFINITY or soft > ADDRESS_SPACE_LIMIT:
+      resource.setrlimit(resource.RLIMIT_AS, (ADDRESS_SPACE_LIMIT, hard))
+  except (ValueError, OSError):
+    pass
 
 
 # ------------------------------------------------------------------------------------------------------------------
@@ -272,13 +300,13 @@ def alphabet(u):
       ops.append(["set_body", d, b])
     for pn, vn in COMBOS_EX[:6]:
       ops.append(["put_initial_value", d, pn, vn])
-  for x in ("p1", "text1", "RA2"):
+  for x in ("p1", "text1", "RA2", "br1"):
     for pn, vn in COMBOS_EX:
       ops.append(["set_style", x, pn, vn])
     for st in STEPS_EX:
       ops.append(["add_animation_step", x, st])
   for a, b in [("p1", "p2"), ("p1", "text1"), ("text1", "span1"), ("p1", "br1"), ("br1", "p1"), ("RA", "RB"), ("RA", "p1"),
-               ("p1", "RA"), ("span1", "span1"), ("p1", "span3")]:
+               ("p1", "RA"), ("span1", "span1"), ("p1", "span3"), ("br1", "br1"), ("RA2", "RA2"), ("text1", "text1")]:
     ops.append(["copy_to", a, b])
   ops.append(["doc_copy_to", "D1", "D2"])
   return ops
@@ -295,6 +323,7 @@ def execute(u, op):
   o = u.o
   P = pools()
   try:
+    signal.setitimer(signal.ITIMER_VIRTUAL, CALL_CPU_BUDGET)
     if name == "push_child":
       o(op[1]).push_child(o(op[2]))
     elif name == "push_children":
@@ -334,6 +363,8 @@ def execute(u, op):
     raise
   except Exception as e:  # pylint: disable=broad-except
     return f"{type(e).__name__}: {e}"[:160]
+  finally:
+    signal.setitimer(signal.ITIMER_VIRTUAL, 0)
   return None
 
 
@@ -382,6 +413,19 @@ def step(ctx, u, op, pre, hist, known=frozenset()):
   flavor = M.classify(pre, op, P)
   err = execute(u, op)
   accepted = err is None
+  if err is not None and err.startswith("CallTimeout"):
+    # the call never returned: the universe may now be arbitrarily large, it is not inspected any further
+    ctx.ev()
+    ctx.count(f"op:{name}:no-return")
+    res = Result()
+    res.post, res.accepted, res.err, res.issue_keys = pre, False, err, frozenset()
+    res.changed = res.struct_changed = False
+    res.violated = res.structural = True
+    ctx.violation(f"call-does-not-return:{name}[{flavor}]",
+                  f"universe '{u.which}', history: " + "; ".join(fmt(h) for h in hist) + f" -- the last call was interrupted by the "
+                  f"watchdog ({err}); no model state is reached after this history",
+                  {"universe": u.which, "ops": [list(h) for h in hist]})
+    return res
   post = u.snapshot()
   issues = u.check()
   ctx.ev()
@@ -679,6 +723,7 @@ def plan(tier, seed):
 
 
 def run(ctx, p):
+  install_watchdog()
   if p["kind"] == "ex":
     run_ex(ctx, p)
   else:
@@ -687,6 +732,7 @@ def run(ctx, p):
 
 def replay(ctx, payload):
   """Re-executes one recorded history on a fresh universe with every monitor on."""
+  install_watchdog()
   u = build(payload["universe"])
   init = u.check()
   if init:
